@@ -383,6 +383,16 @@ func prelude(cold bool, warm int) {
 	}
 	for i := 0; i < warm; i++ {
 		_, _, _ = transformer.TransformModularDSLToProto(warmInputs[i%len(warmInputs)])
+		// the other entry points of the package are part of a process's past too:
+		// the fga.mod reader (accepted and rejected manifests), the JSON printer
+		switch i % 4 {
+		case 1:
+			_, _ = transformer.TransformModFile("schema: '1.2'\ncontents:\n  - core.fga\n  - wiki/a.fga\n")
+		case 2:
+			_, _ = transformer.TransformModFile("contents:\n  - ../core.fga\nschema: '0.9'\n")
+		case 3:
+			_, _ = transformer.TransformDSLToJSON("model\n  schema 1.1\ntype user\ntype doc\n  relations\n    define viewer: [user]\n")
+		}
 	}
 	if warm > 0 {
 		simrt.CountFault("history.warm")
